@@ -2218,7 +2218,19 @@ def _element_paths(fn, loop: ast.For, accumulators: Set[str]):
                 return
             if isinstance(st, ast.Assign) and len(st.targets) == 1 and isinstance(st.targets[0], ast.Name):
                 env[st.targets[0].id] = _subst(st.value, env)
-            elif isinstance(st, ast.AugAssign) and isinstance(st.target, ast.Name) and isinstance(st.op, ast.Add):
+            # a piece that is itself a conditional (`acc.append(a if c else b)`) is two paths
+            piece_node = None
+            if isinstance(st, ast.AugAssign) and isinstance(st.target, ast.Name) and isinstance(st.op, ast.Add) and st.target.id in accumulators:
+                piece_node = st.value
+            elif isinstance(st, ast.Expr) and isinstance(st.value, ast.Call) and isinstance(st.value.func, ast.Attribute) \
+                    and st.value.func.attr == "append" and isinstance(st.value.func.value, ast.Name) and st.value.func.value.id in accumulators and st.value.args:
+                piece_node = st.value.args[0]
+            if isinstance(piece_node, ast.IfExp):
+                test = _subst(piece_node.test, env)
+                for pol, val in ((True, piece_node.body), (False, piece_node.orelse)):
+                    run(stmts[i + 1:], nxt, dict(env), facts + _split_facts(test, pol), list(pieces) + [_subst(val, env)])
+                return
+            if isinstance(st, ast.AugAssign) and isinstance(st.target, ast.Name) and isinstance(st.op, ast.Add):
                 if st.target.id in accumulators:
                     pieces.append(_subst(st.value, env))
                 elif st.target.id in env:
@@ -2289,7 +2301,7 @@ def rule_call_arguments_per_parameter(ctx, rep: Report, rid="M4"):
         return t == f"{ap}.names()" or (isinstance(e, ast.ListComp) and unparse(e.generators[0].iter).replace(" ", "") == f"{ap}.list()"
                                        and unparse(e.elt).endswith(".name"))
     paths = _element_paths(wu, loop, acc)
-    bad_default, bad_name, bad_star = [], [], []
+    bad_default, bad_name, bad_star, bad_bare = [], [], [], []
     n_omitted = n_explicit = n_star = 0
     for facts, pieces in paths:
         atoms: List[Tuple[str, str]] = []
@@ -2299,8 +2311,8 @@ def rule_call_arguments_per_parameter(ctx, rep: Report, rid="M4"):
         atoms = [(k, t) for k, t in atoms if not (k == "const" and t == "")]
         has_default = any(pol and unparse(e).replace(" ", "") == f"{v}.defaultisnotNone" for e, pol in facts) or \
             any((not pol) and unparse(e).replace(" ", "") == f"{v}.defaultisNone" for e, pol in facts)
-        not_given = any(pol and isinstance(e, ast.Compare) and len(e.ops) == 1 and isinstance(e.ops[0], ast.NotIn) and unparse(e.left) == f"{v}.name"
-                        and is_given_names(e.comparators[0]) for e, pol in facts)
+        not_given = any(isinstance(e, ast.Compare) and len(e.ops) == 1 and unparse(e.left) == f"{v}.name" and is_given_names(e.comparators[0])
+                        and ((pol and isinstance(e.ops[0], ast.NotIn)) or ((not pol) and isinstance(e.ops[0], ast.In))) for e, pol in facts)
         empty, contradictory = _empty_markers(facts)
         if contradictory:
             continue
@@ -2314,6 +2326,24 @@ def rule_call_arguments_per_parameter(ctx, rep: Report, rid="M4"):
         core = atoms[1:] if star else atoms
         if core != [("expr", f"{v}.name")]:
             bad_name.append(atoms)
+        if not star:
+            # the converse: a name goes out bare only where the facts exclude the by-value object - a marker is set, the type is a
+            # reference or an enum, or the object test as a whole failed
+            ftxt0 = [(unparse(e).replace(" ", ""), pol) for e, pol in facts]
+            def about_markers(x) -> bool:
+                return any(isinstance(y, ast.Attribute) and y.attr in ("is_shared_ptr", "is_ptr") and unparse(y.value) == f"{v}.ctype" for y in ast.walk(x))
+            marker_set = False
+            for e_, pol_ in facts:
+                if isinstance(e_, ast.Compare) and len(e_.ops) == 1 and isinstance(e_.comparators[0], ast.Constant) and e_.comparators[0].value == "" \
+                        and about_markers(e_.left):
+                    # `<marker expression> == ''` false / `!= ''` true: one of the markers is set
+                    marker_set = marker_set or (isinstance(e_.ops[0], ast.Eq) and not pol_) or (isinstance(e_.ops[0], ast.NotEq) and pol_)
+                elif pol_ and isinstance(e_, (ast.Attribute, ast.BoolOp)) and about_markers(e_) and not any(isinstance(y, ast.Call) for y in ast.walk(e_)):
+                    marker_set = True
+            excluded = marker_set or any(pol and (t.startswith("self.is_ref(") or t.startswith("self.is_enum(")) for t, pol in ftxt0) or \
+                any((not pol) and ("self.can_be_pointer(" in t or "self.is_shared_ptr(" in t or "self.is_ptr(" in t) for t, pol in ftxt0)
+            if not excluded:
+                bad_bare.append([t for t, pol in ftxt0][:5])
         if star:
             n_star += 1
             ftxt = [(unparse(e).replace(" ", ""), pol) for e, pol in facts]
@@ -2328,9 +2358,10 @@ def rule_call_arguments_per_parameter(ctx, rep: Report, rid="M4"):
     rep.add(rid, "defaults:every other parameter contributes its own name", n_explicit >= 1 and not bad_name,
             f"{n_explicit} path(s); contributions: {bad_name[:2]}", loc)
     rep.add("M7" if rep.prop == "C06" else rid, "call expression:`*` in front of a name exactly for a by-value object (no `*`/`@` marker, not a reference, not an enum)",
-            n_star >= 1 and not bad_star,
+            n_star >= 1 and not bad_star and not bad_bare,
             f"{n_star} path(s) emit `*`; on {len(bad_star)} of them the facts do not establish that both markers are empty and that the object predicate holds: "
-            f"{bad_star[:1]}", loc)
+            f"{bad_star[:1]}; {len(bad_bare)} path(s) pass the bare name although nothing on the path excludes a by-value object {bad_bare[:1]} (the routine "
+            f"holds such an argument as std::shared_ptr<T>, so `f(b)` instead of `f(*b)` does not compile or calls another overload)", loc)
 
 
 def rule_copy_exactly_for_values(ctx, rep: Report, rid="H11"):
